@@ -62,6 +62,9 @@ CHECKS = {
  "C15": ("exploration", "round-trip monitor W(R(W(x)))==W(x) plus query/statistics differential and ground-truth statistics from the generator; independent byte-level index encoders",
          "Indexes built by Add from the C04 generator (BAI, tabix with random header fields, CSI v1/v2 with aux) and index files assembled byte-wise by independent BAI/TBI/CSI encoders (references without bins, no pseudo-bin, no trailing count, unsorted bins) are written, re-read and re-written; bytes, every query answer, NumRefs/ReferenceStats/Unmapped must be identical, and statistics must equal the true counts.",
          "An index with no placed record (written as zero references, read back as nil) is skipped.", "3 C15"),
+ "C11": ("exploration", "structure-aware mutation of valid encodings with recover()/process-death/step-count oracles in isolated, memory-limited, checkptr children; decoded values pushed through the library's own consumers",
+         "Fifteen decoder entry points are fed valid encodings from the other properties' generators, structure-aware mutants of them and the repository's crasher corpora; a decode must return without panic or process death within 64*len+1024 underlying reads, and every value returned without error is passed to accessors, formatters, writers and index builders under recover. Children run under ulimit -v 1.5 GB; out-of-memory deaths are counted, not judged, and the case resumes after the offending input.",
+         "Findings keyed by (entry point, innermost library function, class); bounded time = bounded underlying reads plus a wall-clock backstop reported as inconclusive; native Go fuzzing is not part of the registered commands.", "3 C11"),
 }
 NOT_BUILT = "check not built yet in this session; see DESIGN.md section 3 for the planned monitor"
 
